@@ -72,8 +72,9 @@ def rset_pair(rng, relation, radius=None, periodic=(True, True, True)):
     assert relation in RELATIONS, relation
     if radius is None:
         radius = rng.uniform(1.0, 2.0)
-    for _ in range(100):
-        base = gen_systems.symmetric_R_set(rng, radius=radius, periodic=periodic)
+    for attempt in range(100):
+        # a set that is too small for the requested relation is enlarged on retry
+        base = gen_systems.symmetric_R_set(rng, radius=radius + 0.15 * (attempt // 3), periodic=periodic)
         if relation == "equal":
             return base, base.copy()
         if relation == "permuted":
